@@ -1,4 +1,6 @@
 import PEval.Lemmas.Label
+import PEval.Lemmas.LabelDoc
+import PEval.Gen.DocLabels
 /-!
 # C14 — label names convert totally, case-insensitively and consistently with merging
 
@@ -135,5 +137,277 @@ theorem label_tables_nonempty :
     Gen.autowareLabel ≠ [] ∧ Gen.trafficLightLabel ≠ [] ∧ Gen.autowarePairs ≠ [] ∧ Gen.autowarePairsMerged ≠ [] ∧
     Gen.trafficLightPairsClassification ≠ [] ∧ Gen.trafficLightPairsOther ≠ [] ∧ Gen.trafficLightTableOfTask ≠ [] := by
   decide
+
+/-! ## audit round 2
+
+### the constructor's dispatch reaches only the four tables (every task, every prefix) -/
+
+/-- whatever the prefix, the merge flag and the task: an accepted constructor call uses one of the four tables, and
+the family it reports is the one of that table -/
+theorem tableFor_mem_tables (labelPrefix : String) (merge : Bool) (task : String) (t : Table) (fam : String)
+    (h : tableFor labelPrefix merge task = .ok (t, fam)) :
+    t ∈ tables ∧
+    ((labelPrefix = "autoware" ∧ fam = "autoware" ∧ t = (if merge then Gen.autowarePairsMerged else Gen.autowarePairs)) ∨
+     (labelPrefix = "traffic_light" ∧ fam = "traffic_light" ∧ t = trafficLightTable task)) := by
+  unfold tableFor at h
+  by_cases h1 : labelPrefix = "autoware"
+  · simp only [h1, beq_self_eq_true, if_true] at h
+    cases h
+    refine ⟨?_, Or.inl ⟨h1, rfl, rfl⟩⟩
+    cases merge <;> simp [tables]
+  · have h1' : (labelPrefix == "autoware") = false := by simpa using h1
+    simp only [h1', Bool.false_eq_true, if_false] at h
+    by_cases h2 : labelPrefix = "traffic_light"
+    · simp only [h2, beq_self_eq_true, if_true] at h
+      cases h
+      refine ⟨?_, Or.inr ⟨h2, rfl, rfl⟩⟩
+      have ht : trafficLightTable task = Gen.trafficLightPairsClassification ∨
+          trafficLightTable task = Gen.trafficLightPairsOther := by
+        unfold trafficLightTable; split <;> simp
+      rcases ht with ht | ht <;> simp [tables, ht]
+    · have h2' : (labelPrefix == "traffic_light") = false := by simpa using h2
+      simp only [h2', Bool.false_eq_true, if_false] at h
+      split at h <;> cases h
+
+/-- the error exits of the constructor, characterised: `NotImplementedError` exactly for the two announced prefixes,
+`ValueError` exactly for every other string but the two supported ones; nothing else fails -/
+theorem tableFor_error_iff (labelPrefix : String) (merge : Bool) (task : String) :
+    (tableFor labelPrefix merge task = .error "NotImplementedError" ↔
+      (labelPrefix = "blinker" ∨ labelPrefix = "brake_lamp")) ∧
+    (tableFor labelPrefix merge task = .error "ValueError" ↔
+      (labelPrefix ≠ "autoware" ∧ labelPrefix ≠ "traffic_light" ∧ labelPrefix ≠ "blinker" ∧ labelPrefix ≠ "brake_lamp")) ∧
+    ((∃ r, tableFor labelPrefix merge task = .ok r) ↔ (labelPrefix = "autoware" ∨ labelPrefix = "traffic_light")) := by
+  unfold tableFor
+  by_cases h1 : labelPrefix = "autoware"
+  · subst h1; simp
+  · by_cases h2 : labelPrefix = "traffic_light"
+    · subst h2; simp
+    · by_cases h3 : labelPrefix = "blinker"
+      · subst h3; simp
+      · by_cases h4 : labelPrefix = "brake_lamp"
+        · subst h4; simp
+        · simp [h1, h2, h3, h4]
+
+/-- every task of the current tree gets one of the two traffic-light tables, and the table named in the regenerated
+task list is the one the model's dispatch picks (all nine tasks, not two) -/
+theorem trafficLight_table_of_every_task :
+    ∀ p ∈ Gen.trafficLightTableOfTask,
+      (p.2 = "classification" → trafficLightTable p.1 = Gen.trafficLightPairsClassification) ∧
+      (p.2 ≠ "classification" → trafficLightTable p.1 = Gen.trafficLightPairsOther) := by decide +kernel
+
+/-! ### witnesses inside the traffic-light tables (an empty or swapped regenerated table fails these) -/
+
+theorem trafficLight_tables_witness :
+    convertLabel Gen.trafficLightPairsClassification "RED" = "RED" ∧
+    convertLabel Gen.trafficLightPairsClassification "Green" = "GREEN" ∧
+    convertLabel Gen.trafficLightPairsOther "green" = "TRAFFIC_LIGHT" ∧
+    convertLabel Gen.trafficLightPairsOther "RED" = "TRAFFIC_LIGHT" ∧
+    convertLabel Gen.trafficLightPairsOther "unknown" = "UNKNOWN" ∧
+    Gen.trafficLightPairsClassification ≠ Gen.trafficLightPairsOther := by decide +kernel
+
+/-! ### `None` / empty target list = every member of the family, in definition order -/
+
+theorem setTargetLists_empty_all (labelPrefix : String) (merge : Bool) (task : String) (t : Table) (fam : String)
+    (h : tableFor labelPrefix merge task = .ok (t, fam)) :
+    setTargetLists none t fam = setTargetLists (some []) t fam ∧
+    setTargetLists none t fam =
+      (if labelPrefix = "autoware" then Gen.autowareLabel.map (·.1) else Gen.trafficLightLabel.map (·.1)) ∧
+    setTargetLists none t fam ≠ [] := by
+  obtain ⟨_, hc⟩ := tableFor_mem_tables _ _ _ _ _ h
+  obtain ⟨_, _, _, _, _, _, _⟩ := label_tables_nonempty
+  rcases hc with ⟨hp, hf, _⟩ | ⟨hp, hf, _⟩
+  · subst hp; subst hf
+    refine ⟨rfl, by simp [setTargetLists, familyMembers], ?_⟩
+    simp [setTargetLists, familyMembers]; assumption
+  · subst hp; subst hf
+    refine ⟨rfl, by simp [setTargetLists, familyMembers], ?_⟩
+    simp [setTargetLists, familyMembers]; assumption
+
+/-- the statement fails for the defective variant that answers `[]` -/
+example : setTargetLists_noDefault none Gen.autowarePairs ≠ Gen.autowareLabel.map (·.1) := by decide
+
+/-! ### the DOCUMENTED mapping
+
+`Gen.doc*` are the tables of `docs/en/perception/label.md` of the working tree, parsed on every run by the translator
+(`harness/gen_tables.py: gen_doc_labels`): `(documented name, label member name)`.  They are an INDEPENDENT source:
+the theorems below compare the code's tables with them.  If the document cannot be found or parsed the translator
+emits empty tables and `Gen.docLabelsParsed = false`; every theorem below then holds trivially and `c14.py` reports
+`doc:untranslatable`. -/
+
+/-- the documented table of the Autoware family for a merge setting -/
+def docAutowareFor (merge : Bool) : List (String × String) :=
+  if merge then Gen.docAutowareMerged else Gen.docAutoware
+
+/-- FINDING CANDIDATE C14-D1 (unchanged tree): rows of label.md, `TrafficLightLabel`, on which the documentation and
+the code disagree.  The document lists the names `red_left_straight` / `red_right_straight` (labels `TRAFFIC_LIGHT`
+for detection / tracking, `RED_LEFT_STRAIGHT` / `RED_RIGHT_STRAIGHT` for classification); the code registers
+`red_straight_left` / `red_straight_right` and the enum has no member `RED_LEFT_STRAIGHT` / `RED_RIGHT_STRAIGHT`:
+the documented names convert to `UNKNOWN` (`doc_exceptions_exact`).  The theorems about the traffic-light family are
+stated modulo exactly these rows. -/
+def docExceptionsOther : List (String × String) :=
+  [("red_left_straight", "TRAFFIC_LIGHT"), ("red_right_straight", "TRAFFIC_LIGHT")]
+def docExceptionsClassification : List (String × String) :=
+  [("red_left_straight", "RED_LEFT_STRAIGHT"), ("red_right_straight", "RED_RIGHT_STRAIGHT")]
+
+/-- documented names are written in lower case (so "every case variant of a documented name" is `s.toLower = name`) -/
+theorem doc_names_lowercase :
+    ∀ d ∈ [Gen.docAutoware, Gen.docAutowareMerged, Gen.docTrafficLightOther, Gen.docTrafficLightClassification],
+      ∀ p ∈ d, p.1.toLower = p.1 := Label.doc_names_lowercase
+
+/-- table level, Autoware family, both merge settings: looking a documented name up in the code's table gives the
+documented label (also for a documented name the code does not register, e.g. `static_object.forklift` ↦ UNKNOWN) -/
+theorem documented_rows_autoware :
+    (∀ p ∈ Gen.docAutoware, convertLabel Gen.autowarePairs p.1 = p.2) ∧
+    (∀ p ∈ Gen.docAutowareMerged, convertLabel Gen.autowarePairsMerged p.1 = p.2) := by decide +kernel
+
+/-- table level, traffic-light family, modulo the listed disagreements -/
+theorem documented_rows_trafficLight :
+    (∀ p ∈ Gen.docTrafficLightOther, p ∉ docExceptionsOther → convertLabel Gen.trafficLightPairsOther p.1 = p.2) ∧
+    (∀ p ∈ Gen.docTrafficLightClassification, p ∉ docExceptionsClassification →
+      convertLabel Gen.trafficLightPairsClassification p.1 = p.2) := by decide +kernel
+
+/-- the tasks the document names for each traffic-light table get that table from the code -/
+theorem documented_tasks_tables :
+    (∀ task ∈ Gen.docTrafficLightOtherTasks, trafficLightTable task = Gen.trafficLightPairsOther) ∧
+    (∀ task ∈ Gen.docTrafficLightClassificationTasks, trafficLightTable task = Gen.trafficLightPairsClassification) := by
+  decide +kernel
+
+theorem convert_of_row {t : Table} (ht : t ∈ tables) {p : String × String} (hl : p.1.toLower = p.1)
+    (hr : convertLabel t p.1 = p.2) (s : String) (hs : s.toLower = p.1) :
+    convertLabel t s = p.2 ∧ convertName t s = p.2 := by
+  have h1 : convertLabel t s = p.2 := by
+    rw [convertLabel_congr t (s' := p.1) (by rw [hs, hl])]; exact hr
+  exact ⟨h1, by rw [targets_same_mapping t ht s]; exact h1⟩
+
+/-- **every documented name converts to its documented label** — Autoware family: for both merge settings, for every
+task (the document describes one table for all tasks), through the constructor's dispatch, in every case variant, at
+both entry points (`convert_label` for object labels, `convert_name` for target lists) -/
+theorem documented_names_convert_autoware (merge : Bool) (task : String) (t : Table) (fam : String)
+    (ht : tableFor "autoware" merge task = .ok (t, fam)) :
+    ∀ p ∈ docAutowareFor merge, ∀ s : String, s.toLower = p.1 →
+      convertLabel t s = p.2 ∧ convertName t s = p.2 := by
+  intro p hp s hs
+  obtain ⟨hmem, hc⟩ := tableFor_mem_tables _ _ _ _ _ ht
+  have hl : p.1.toLower = p.1 := by
+    cases merge
+    · exact doc_names_lowercase Gen.docAutoware (by simp) p (by simpa [docAutowareFor] using hp)
+    · exact doc_names_lowercase Gen.docAutowareMerged (by simp) p (by simpa [docAutowareFor] using hp)
+  rcases hc with ⟨_, _, rfl⟩ | ⟨h, _⟩
+  · refine convert_of_row hmem hl ?_ s hs
+    cases merge
+    · exact documented_rows_autoware.1 p (by simpa [docAutowareFor] using hp)
+    · exact documented_rows_autoware.2 p (by simpa [docAutowareFor] using hp)
+  · exact absurd h (by decide)
+
+/-- **every documented name converts to its documented label** — traffic-light family: for every task the document
+names (detection2d / tracking2d: the one-label table; classification2d: the per-colour table), whatever the merge flag,
+through the constructor's dispatch, in every case variant, at both entry points; modulo the rows of finding candidate
+C14-D1 -/
+theorem documented_names_convert_trafficLight (merge : Bool) (task : String) (t : Table) (fam : String)
+    (ht : tableFor "traffic_light" merge task = .ok (t, fam)) :
+    (task ∈ Gen.docTrafficLightOtherTasks → ∀ p ∈ Gen.docTrafficLightOther, p ∉ docExceptionsOther →
+      ∀ s : String, s.toLower = p.1 → convertLabel t s = p.2 ∧ convertName t s = p.2) ∧
+    (task ∈ Gen.docTrafficLightClassificationTasks → ∀ p ∈ Gen.docTrafficLightClassification,
+      p ∉ docExceptionsClassification →
+      ∀ s : String, s.toLower = p.1 → convertLabel t s = p.2 ∧ convertName t s = p.2) := by
+  obtain ⟨hmem, hc⟩ := tableFor_mem_tables _ _ _ _ _ ht
+  rcases hc with ⟨h, _⟩ | ⟨_, _, rfl⟩
+  · exact absurd h (by decide)
+  · constructor
+    · intro htask p hp hne s hs
+      rw [documented_tasks_tables.1 task htask] at hmem ⊢
+      exact convert_of_row hmem (doc_names_lowercase Gen.docTrafficLightOther (by simp) p hp)
+        (documented_rows_trafficLight.1 p hp hne) s hs
+    · intro htask p hp hne s hs
+      rw [documented_tasks_tables.2 task htask] at hmem ⊢
+      exact convert_of_row hmem (doc_names_lowercase Gen.docTrafficLightClassification (by simp) p hp)
+        (documented_rows_trafficLight.2 p hp hne) s hs
+
+/-- the exact deviation on the excepted rows (finding candidate C14-D1): the documented names are not registered, the
+code answers `UNKNOWN` for them; for classification the documented label is not even a member of `TrafficLightLabel`,
+while the names the code does register for these members convert as expected -/
+theorem doc_exceptions_exact :
+    (∀ p ∈ docExceptionsOther, convertLabel Gen.trafficLightPairsOther p.1 = "UNKNOWN" ∧ p.2 ≠ "UNKNOWN") ∧
+    (∀ p ∈ docExceptionsClassification, convertLabel Gen.trafficLightPairsClassification p.1 = "UNKNOWN" ∧
+      p.2 ∉ Gen.trafficLightLabel.map (·.1)) ∧
+    convertLabel Gen.trafficLightPairsClassification "red_straight_left" = "RED_STRAIGHT_LEFT" ∧
+    convertLabel Gen.trafficLightPairsClassification "red_straight_right" = "RED_STRAIGHT_RIGHT" ∧
+    convertLabel Gen.trafficLightPairsOther "red_straight_left" = "TRAFFIC_LIGHT" ∧
+    convertLabel Gen.trafficLightPairsOther "red_straight_right" = "TRAFFIC_LIGHT" := by decide +kernel
+
+/-- the converse direction: every registered (label, name) of the code's tables is a row of the document with that
+same label, or its name is in the regenerated list of names the document does not mention -/
+theorem registered_names_documented : Gen.docLabelsParsed = true →
+    (∀ p ∈ Gen.autowarePairs, (p.2, p.1) ∈ Gen.docAutoware ∨ p.2 ∈ Gen.undocumentedAutoware) ∧
+    (∀ p ∈ Gen.autowarePairsMerged, (p.2, p.1) ∈ Gen.docAutowareMerged ∨ p.2 ∈ Gen.undocumentedAutowareMerged) ∧
+    (∀ p ∈ Gen.trafficLightPairsOther,
+      (p.2, p.1) ∈ Gen.docTrafficLightOther ∨ p.2 ∈ Gen.undocumentedTrafficLightOther) ∧
+    (∀ p ∈ Gen.trafficLightPairsClassification,
+      (p.2, p.1) ∈ Gen.docTrafficLightClassification ∨ p.2 ∈ Gen.undocumentedTrafficLightClassification) := by
+  decide +kernel
+
+/-- the "undocumented" lists are exact: each of their names is registered in the code's table and occurs in no row of
+the document's table (so the escape clause of `registered_names_documented` cannot hide a wrongly documented name) -/
+theorem undocumented_lists_exact :
+    (∀ n ∈ Gen.undocumentedAutoware, n ∈ regNames Gen.autowarePairs ∧ n ∉ Gen.docAutoware.map (·.1)) ∧
+    (∀ n ∈ Gen.undocumentedAutowareMerged, n ∈ regNames Gen.autowarePairsMerged ∧ n ∉ Gen.docAutowareMerged.map (·.1)) ∧
+    (∀ n ∈ Gen.undocumentedTrafficLightOther,
+      n ∈ regNames Gen.trafficLightPairsOther ∧ n ∉ Gen.docTrafficLightOther.map (·.1)) ∧
+    (∀ n ∈ Gen.undocumentedTrafficLightClassification,
+      n ∈ regNames Gen.trafficLightPairsClassification ∧ n ∉ Gen.docTrafficLightClassification.map (·.1)) := by
+  decide +kernel
+
+/-- the document is consistent with the merging rule of the property text: its merged table is the merged image
+(truck, bus → car; motorbike → bicycle) of its unmerged table, row for row as a set — this ties the hand-written
+`mergeImage` to the documentation -/
+theorem doc_merge_consistent :
+    (∀ p ∈ Gen.docAutoware, (p.1, mergeImage p.2) ∈ Gen.docAutowareMerged) ∧
+    (∀ q ∈ Gen.docAutowareMerged, ∃ p ∈ Gen.docAutoware, p.1 = q.1 ∧ mergeImage p.2 = q.2) :=
+  Label.doc_merge_consistent
+
+/-- documented labels are members of the label enum, and the documented `value` of a member is its value in the code
+(modulo the two non-existent members of finding candidate C14-D1) -/
+theorem doc_labels_are_members :
+    (∀ p ∈ Gen.docAutoware ++ Gen.docAutowareMerged, p.2 ∈ Gen.autowareLabel.map (·.1)) ∧
+    (∀ p ∈ Gen.docTrafficLightOther, p.2 ∈ Gen.trafficLightLabel.map (·.1)) ∧
+    (∀ p ∈ Gen.docTrafficLightClassification, p ∉ docExceptionsClassification → p.2 ∈ Gen.trafficLightLabel.map (·.1)) ∧
+    (∀ v ∈ Gen.docAutowareValues, v ∈ Gen.autowareLabel) ∧
+    (∀ v ∈ Gen.docTrafficLightValues, v.1 ∉ docExceptionsClassification.map (·.2) → v ∈ Gen.trafficLightLabel) := by
+  decide +kernel
+
+/-- a parsed document has rows in every table and names tasks for both traffic-light tables (no vacuity) -/
+theorem doc_tables_nonempty : Gen.docLabelsParsed = true →
+    Gen.docAutoware ≠ [] ∧ Gen.docAutowareMerged ≠ [] ∧ Gen.docTrafficLightOther ≠ [] ∧
+    Gen.docTrafficLightClassification ≠ [] ∧ Gen.docTrafficLightOtherTasks ≠ [] ∧
+    Gen.docTrafficLightClassificationTasks ≠ [] := by decide
+
+/-! ### what the documented-mapping theorems exclude: defective variants -/
+
+/-- the alias `trailer` registered for BUS instead of TRUCK (audit C14-2): all the table-hygiene and canonical-name
+statements still hold of this table — only the comparison with the document fails -/
+def badAliasTable : Table := withWrongAlias Gen.autowarePairs "trailer" "BUS"
+
+example : (regNames badAliasTable).Nodup ∧ regNames badAliasTable = regNames Gen.autowarePairs ∧
+    (∀ p ∈ badAliasTable, p.1 ∈ Gen.autowareLabel.map (·.1)) ∧
+    (∀ p ∈ badAliasTable, ∀ m ∈ Gen.autowareLabel, m.1 = p.1 → convertLabel badAliasTable m.2 = p.1) := by
+  decide +kernel
+example : Gen.docLabelsParsed = true → ¬ (∀ p ∈ Gen.docAutoware, convertLabel badAliasTable p.1 = p.2) := by
+  decide +kernel
+example : Gen.docLabelsParsed = true →
+    ¬ (∀ p ∈ badAliasTable, (p.2, p.1) ∈ Gen.docAutoware ∨ p.2 ∈ Gen.undocumentedAutoware) := by decide +kernel
+
+/-- a converter that does not lower-case its argument fails `registered_upper` / `registered_any_case` -/
+example : ¬ (∀ p ∈ Gen.autowarePairs, convertLabelCS Gen.autowarePairs p.2.toUpper = p.1) := by decide +kernel
+
+/-- instances of the hypotheses of the documented-mapping theorems -/
+example : tableFor "autoware" true "TRACKING" = .ok (Gen.autowarePairsMerged, "autoware") := by decide +kernel
+example : tableFor "traffic_light" false "TRACKING2D" = .ok (Gen.trafficLightPairsOther, "traffic_light") := by
+  decide +kernel
+example : Gen.docLabelsParsed = true → ("TRAILER" : String).toLower ∈ (docAutowareFor true).map (·.1) := by
+  decide +kernel
+example : Gen.docLabelsParsed = true →
+    "TRACKING2D" ∈ Gen.docTrafficLightOtherTasks ∧ ("red", "TRAFFIC_LIGHT") ∉ docExceptionsOther := by decide +kernel
+example : tableFor "blinker" false "DETECTION" = .error "NotImplementedError" ∧
+    tableFor "Autoware" false "DETECTION" = .error "ValueError" := by decide +kernel
 
 end PEval.C14
